@@ -259,8 +259,9 @@ def write_evidence(ctx, ev=None):
     return path
 
 
-def watchdog(seconds):
-    """Generous wall-clock watchdog: firing means inconclusive (exit 2), never a violation."""
+def watchdog(seconds, ctx=None):
+    """Generous wall-clock watchdog: firing means inconclusive (exit 2), never a violation.  Violations that were
+    already reported (VIOLATION line and replay file written) before the run got stuck stand: exit 1."""
     faulthandler.enable()
     import threading
 
@@ -268,7 +269,7 @@ def watchdog(seconds):
         sys.stdout.write('\nINCONCLUSIVE reason=watchdog-%ds\n' % seconds)
         sys.stdout.flush()
         faulthandler.dump_traceback()
-        os._exit(2)
+        os._exit(1 if ctx is not None and ctx._printed_viol else 2)
     t = threading.Timer(seconds, fire)
     t.daemon = True
     t.start()
